@@ -14,7 +14,7 @@
 (*   label l            ->  label l \o <<k>>                                  *)
 (*   BCC BCS BEQ BMI BNE BPL JMP with operand t                               *)
 (*                      ->  the same mnemonic with operand t \o <<k>>, same   *)
-(*                          size and cycles, protected := FALSE               *)
+(*                          size, cycles and protection                       *)
 (*   anything else      ->  copied unchanged                                  *)
 (***************************************************************************)
 EXTENDS Integers, Sequences, FiniteSets, TLC
@@ -26,7 +26,7 @@ Seg(id, nb, prot) == [k |-> "seg", id |-> id, nb |-> nb, prot |-> prot]
 
 Copy(line, k) ==
   CASE line.k = "lab" -> Lab(line.name \o <<k>>)
-    [] line.k = "br" /\ line.mn \in Renamed -> [line EXCEPT !.to = @ \o <<k>>, !.prot = FALSE]
+    [] line.k = "br" /\ line.mn \in Renamed -> [line EXCEPT !.to = @ \o <<k>>]
     [] OTHER -> line
 AppendCode(caller, callee, k) == caller \o [i \in 1..Len(callee) |-> Copy(callee[i], k)]
 
@@ -43,6 +43,6 @@ SameShape(orig, copy) ==
   /\ \A i \in 1..Len(orig) :
        /\ orig[i].k = copy[i].k
        /\ orig[i].k = "seg" => orig[i] = copy[i]
-       /\ orig[i].k = "br" => /\ orig[i].mn = copy[i].mn /\ orig[i].nb = copy[i].nb
+       /\ orig[i].k = "br" => /\ orig[i].mn = copy[i].mn /\ orig[i].nb = copy[i].nb /\ orig[i].prot = copy[i].prot
                               /\ LabelIdx(copy, copy[i].to) = LabelIdx(orig, orig[i].to)      \* same target position
 =============================================================================
